@@ -45,6 +45,9 @@ func (c *ctx) validFrameBytes() []byte {
 			}
 			if fp := anyList(v["fport"]); len(fp) == 1 {
 				v["frm"] = c.genRawItem(c.rnd.Intn(40))
+				if c.rnd.Intn(5) == 0 { // a port and nothing behind it: every optional part has its own boundary case
+					v["frm"] = []interface{}{}
+				}
 				if num(fp[0]) == 0 {
 					v["fopts"] = []interface{}{}
 				}
